@@ -178,10 +178,59 @@ def enc_class(e):
 
 # ---- the generator functions that get decorated ---------------------------------------------------
 
+NO_RECEIVER = object()
+BINDS = ('function', 'instance', 'instance_bound_once', 'class_call', 'classmethod', 'classmethod_on_instance', 'staticmethod',
+         'subclass_instance')
+
+
+def bind_form(d, bind):
+    """how the caller reaches the decorated generator function d: directly, or as an attribute of a class (the decorator applied
+    inside a class body).  -> (callable the with statement calls with the caller's own arguments, the receiver the generator
+    must get as its first argument or NO_RECEIVER)"""
+    if bind == 'function':
+        return d, NO_RECEIVER
+    if bind == 'staticmethod':
+        class Holder:
+            lease = staticmethod(d)
+        inst = Holder()
+        return (lambda *a, **k: inst.lease(*a, **k)), NO_RECEIVER
+    if bind in ('classmethod', 'classmethod_on_instance'):
+        class Holder:
+            lease = classmethod(d)
+        inst = Holder()
+        if bind == 'classmethod':
+            return (lambda *a, **k: Holder.lease(*a, **k)), Holder
+        return (lambda *a, **k: inst.lease(*a, **k)), Holder
+
+    class Holder:
+        lease = d
+    if bind == 'subclass_instance':
+        class Sub(Holder):
+            pass
+        inst = Sub()
+    else:
+        inst = Holder()
+    if bind in ('instance', 'subclass_instance'):
+        return (lambda *a, **k: inst.lease(*a, **k)), inst
+    if bind == 'instance_bound_once':
+        m = inst.lease
+        return m, inst
+    if bind == 'class_call':
+        return (lambda *a, **k: Holder.lease(inst, *a, **k)), inst
+    raise ValueError(bind)
+
+
 def make_genfn(ctx, var):
     def start(args, kwargs):
         u = ctx.pending.pop() if ctx.pending else ctx.last_use
         ctx.last_use = u
+        recv = u.get('recv', NO_RECEIVER)
+        if recv is not NO_RECEIVER:
+            # a method: the receiver (the instance / the class) comes first, then the caller's own arguments
+            if len(args) >= 1 and args[0] is recv:
+                args = args[1:]
+            else:
+                kwargs = None        # the receiver is missing or is another object: "arguments not forwarded unchanged"
         ac = ctx.argcode(u, args, kwargs)
         ctx.ev(1, u['id'], 0, ac)
         return u, ac
@@ -289,6 +338,10 @@ def run_seq_core(case):
     ctx = Ctx()
     ctx.suspend = bool(case.get('suspend')) and var == 'async'
 
+    bind = case.get('bind', 'function')
+    if bind not in BINDS:
+        return {'error': 'unknown bind %r' % (bind,)}
+
     def decorate():
         set_switch(sw_deco)
         try:
@@ -303,6 +356,7 @@ def run_seq_core(case):
     except BaseException as e:
         return {'flat': [-4] + enc_class(e), 'exc': type(e).__name__}
     results = []
+    shared_form = None
     for item in case['items']:
         uses = [dict(u) for u in item['uses']]
         try:
@@ -312,6 +366,11 @@ def run_seq_core(case):
             raise
         except BaseException as e:
             return {'flat': [-4] + enc_class(e), 'exc': type(e).__name__}
+        if bind != 'function':
+            if shared is not None and shared_form is None:
+                shared_form = bind_form(shared, bind)
+            for u in uses:
+                u['dec'], u['recv'] = shared_form if shared is not None else bind_form(u['dec'], bind)
         ctx.uses = uses
         ctx.fell = False
         del ctx.pending[:]
